@@ -131,4 +131,226 @@ JoinTailsExits(H0, ng0, l, tails, exits) ==
   ELSE [H |-> H0, ng |-> ng0, ret |-> <<>>, fail |-> TRUE]
 
 HasFail(H) == \E n \in DOMAIN H : H[n].k = "FAIL"
+
+(***************************************************************************)
+(* Queries (transcribed; their agreement with the definitions is C13)      *)
+(***************************************************************************)
+FwdPreds(H, l, v) == {u \in Level(H, l) : v \in SeqSet(Fwd(H[u]))}
+HeadOf(H, l) == LET hs == {h \in Level(H, l) : FwdPreds(H, l, h) = {}} IN IF Cardinality(hs) = 1 THEN CHOOSE h \in hs : TRUE ELSE "?"
+\* find_headers_and_entries: raw targets of the blocks outside `sub`; no header -> the head of the level, no entries at this level
+HeadersEntries(H, l, sub, rank) ==
+  LET outside == Level(H, l) \ sub
+      hdr == UNION {sub \cap SeqSet(H[o].jt) : o \in outside}
+      ent == {o \in outside : sub \cap SeqSet(H[o].jt) # {}}
+  IN IF hdr # {} THEN <<Sorted(hdr, rank), Sorted(ent, rank)>> ELSE <<<<HeadOf(H, l)>>, <<>>>>
+ExitingExits(H, sub, rank) ==
+  LET exiting == {n \in sub : Fwd(H[n]) = <<>> \/ \E t \in SeqSet(Fwd(H[n])) : t \notin sub}
+      exits == UNION {SeqSet(Fwd(H[n])) \ sub : n \in sub}
+  IN <<Sorted(exiting, rank), Sorted(exits, rank)>>
+\* dominance on a level (forward edges inside the level), computed once per state
+Adj(H, l) == LET Lv == Level(H, l) IN [u \in Lv |-> SeqSet(Fwd(H[u])) \cap Lv]
+RevAdj(A) == [v \in DOMAIN A |-> {u \in DOMAIN A : v \in A[u]}]
+RECURSIVE GrowA(_, _, _, _)
+GrowA(A, seen, fr, avoid) ==
+  IF fr = {} THEN seen
+  ELSE LET nw == (UNION {A[u] : u \in fr}) \ (seen \cup {avoid}) IN GrowA(A, seen \cup nw, nw, avoid)
+DomFun(A) ==
+  LET R == RevAdj(A)
+      roots == {e \in DOMAIN A : R[e] = {}}
+      reachAvoid == [a \in DOMAIN A |-> GrowA(A, roots \ {a}, roots \ {a}, a)]
+  IN [b \in DOMAIN A |-> {b} \cup {a \in DOMAIN A : a # b /\ b \notin reachAvoid[a]}]
+IDomFrom(D, k) ==
+  LET sd == D[k] \ {k}
+      c == {d \in sd : \A d2 \in sd : d2 \in D[d]}
+  IN IF Cardinality(c) = 1 THEN CHOOSE d \in c : TRUE ELSE "?"
+\* region-concealing BFS order of a level
+RECURSIVE BFS(_, _, _, _, _)
+BFS(H, l, q, seen, out) ==
+  IF q = <<>> THEN out
+  ELSE LET n == Head(q) rest == Tail(q) IN
+       IF n \in seen THEN BFS(H, l, rest, seen, out)
+       ELSE IF n \notin Level(H, l) THEN BFS(H, l, rest, seen \cup {n}, out)
+       ELSE LET nxt == IF H[n].k = "region" THEN (IF H[n].exiting \in DOMAIN H THEN Fwd(H[H[n].exiting]) ELSE <<>>) ELSE Fwd(H[n])
+            IN BFS(H, l, rest \o nxt, seen \cup {n}, Append(out, n))
+ViewOrder(H, l) == IF HeadOf(H, l) = "?" THEN <<>> ELSE BFS(H, l, <<HeadOf(H, l)>>, {}, <<>>)
+\* is_reachable_dfs: a path of >= 1 forward edge, expanding only names present at the level
+RECURSIVE GrowFwd(_, _, _, _)
+GrowFwd(H, l, seen, fr) ==
+  IF fr = {} THEN seen
+  ELSE LET nw == (UNION {SeqSet(Fwd(H[u])) : u \in fr \cap Level(H, l)}) \ seen IN GrowFwd(H, l, seen \cup nw, nw)
+Reachable(H, l, a, b) == LET s0 == SeqSet(Fwd(H[a])) IN b \in GrowFwd(H, l, s0, s0)
+
+(***************************************************************************)
+(* extract_region (+ update_exiting)                                       *)
+(***************************************************************************)
+RenameIn(b, hdr, rn) == [ReplaceJT(b, Rename(b.jt, hdr, rn)) EXCEPT !.be = Rename(b.be, hdr, rn)]
+RECURSIVE UpdExiting(_, _, _, _, _)
+UpdExiting(H, r, hdr, rn, fuel) ==
+  IF fuel = 0 \/ H[r].exiting \notin DOMAIN H THEN H
+  ELSE LET x == H[r].exiting
+           H1 == [H EXCEPT ![x] = RenameIn(@, hdr, rn)]
+       IN IF H1[x].k = "region" THEN UpdExiting(H1, x, hdr, rn, fuel - 1) ELSE H1
+Extract(H0, ng0, l, blocks, kind, rank) ==
+  LET he == HeadersEntries(H0, l, blocks, rank)
+      ee == ExitingExits(H0, blocks, rank)
+      hdr == he[1][1]
+      xit == IF ee[1] = <<>> THEN "?" ELSE ee[1][1]
+      nr == NewRegion(ng0, kind)
+      rn == nr[1]
+      ng1 == [nr[2] EXCEPT !["meta"] = @ + 1]        \* SCFG(...) of the sub-graph draws a meta region name
+      entries == SelectSeq(he[2], LAMBDA e : e \in Level(H0, l))
+      RECURSIVE PerEntry(_, _)
+      PerEntry(H, j) ==
+        IF j > Len(entries) THEN H
+        ELSE LET e == entries[j]
+                 H1 == [H EXCEPT ![e] = RenameIn(@, hdr, rn)]
+             IN PerEntry(IF H1[e].k = "region" THEN UpdExiting(H1, e, hdr, rn, Cardinality(DOMAIN H1)) ELSE H1, j + 1)
+      ok == Len(he[1]) = 1 /\ Len(ee[1]) = 1 /\ hdr # "?"
+  IN IF ~ok THEN [H |-> H0, ng |-> ng0, ok |-> FALSE]
+     ELSE
+     LET H1 == PerEntry(H0, 1)
+         reg == [k |-> "region", jt |-> Fwd(H1[xit]), be |-> <<>>, up |-> l, rk |-> kind, header |-> hdr, exiting |-> xit, pp |-> l, sr |-> rn]
+         H2 == [n \in DOMAIN H1 \cup {rn} |->
+                  IF n = rn THEN reg
+                  ELSE IF n \in blocks THEN (IF H1[n].k = "region" THEN [H1[n] EXCEPT !.up = rn, !.pp = rn] ELSE [H1[n] EXCEPT !.up = rn])
+                  ELSE IF n = l THEN [H1[n] EXCEPT !.header = IF @ = hdr THEN rn ELSE @, !.exiting = IF @ = xit THEN rn ELSE @]
+                  ELSE H1[n]]
+     IN [H |-> H2, ng |-> ng1, ok |-> TRUE]
+
+(***************************************************************************)
+(* loop_restructure_helper                                                 *)
+(***************************************************************************)
+RevLookup(tab, v) == LET J == {j \in 1..Len(tab) : tab[j][2] = v} IN IF J = {} THEN -1 ELSE tab[Min(J)][1]
+DomsOf(H, l, b) == DomFun(Adj(H, l))[b]
+LoopRotate(H0, ng0, l, loop0, rank) ==
+  LET he == HeadersEntries(H0, l, loop0, rank)
+      headers == he[1]
+      ee == ExitingExits(H0, loop0, rank)
+      exiting == ee[1]
+      exits == ee[2]
+      unified == Len(headers) > 1
+      nbh == NewBlock(ng0, "synth_head")
+      ctl == InsertCtl(H0, nbh[2], l, nbh[1], he[2], headers, rank)
+      H1 == IF unified THEN ctl.H ELSE H0
+      ng1 == IF unified THEN ctl.ng ELSE ng0
+      head == IF unified THEN nbh[1] ELSE headers[1]
+      loop1 == IF unified THEN loop0 \cup {head} ELSE loop0
+      beblocks == {b \in loop1 : SeqSet(headers) \cap SeqSet(Fwd(H1[b])) # {}}
+      D == DomFun(Adj(H1, l))
+  IN
+  IF Cardinality(beblocks) = 1 /\ Len(exiting) = 1 /\ beblocks = {exiting[1]}
+  THEN LET b == exiting[1] IN
+       [H |-> IF head \in SeqSet(Fwd(H1[b])) THEN [H1 EXCEPT ![b].be = <<head>>] ELSE H1, ng |-> ng1, loop |-> loop1, fail |-> FALSE]
+  ELSE IF exits = <<>> THEN [H |-> H1, ng |-> ng1, loop |-> loop1, fail |-> TRUE]      \* next(iter(exit_blocks)) raises
+  ELSE
+  LET nbl == NewBlock(ng1, "synth_exit_latch")
+      latch == nbl[1]
+      needs == Len(exits) > 1
+      nbx == IF needs THEN NewBlock(nbl[2], "synth_exit") ELSE <<"", nbl[2]>>
+      xv == IF unified THEN <<H1[head].var, nbx[2]>> ELSE NewVar(nbx[2], "exit")
+      bv == NewVar(xv[2], "backedge")
+      exitTarget == IF needs THEN nbx[1] ELSE exits[1]
+      exitTab == [j \in 1..Len(exits) |-> <<j - 1, exits[j]>>]
+      beTab == <<<<0, head>>, <<1, exitTarget>>>>
+      hdrTab == IF unified THEN H1[head].tab ELSE <<>>
+      names == Sorted(loop1, rank)
+      RECURSIVE PerName(_, _), PerTarget(_, _, _, _)
+      \* st = [H, ng, njt, new]
+      PerTarget(st, name, tg, j) ==
+        IF j > Len(tg) THEN st
+        ELSE LET t == tg[j] IN
+             IF t \in SeqSet(exits) THEN
+                LET nb == NewBlock(st.ng, "synth_asign")
+                    asg == (IF needs THEN <<<<xv[1], RevLookup(exitTab, t)>>>> ELSE <<>>) \o <<<<bv[1], 1>>>>
+                    blk == [k |-> "assign", jt |-> <<latch>>, be |-> <<>>, up |-> l, asg |-> asg]
+                IN PerTarget([st EXCEPT !.H = Put(@, nb[1], blk), !.ng = nb[2], !.new = @ \cup {nb[1]},
+                                        !.njt = [@ EXCEPT ![IndexOf(@, t)] = nb[1]]], name, tg, j + 1)
+             ELSE IF t \in SeqSet(headers) /\ (name \notin D[t] \/ name = t) THEN
+                LET nb == NewBlock(st.ng, "synth_asign")
+                    asg == <<<<bv[1], 0>>>> \o (IF needs \/ unified THEN <<<<xv[1], RevLookup(hdrTab, t)>>>> ELSE <<>>)
+                    blk == [k |-> "assign", jt |-> <<latch>>, be |-> <<>>, up |-> l, asg |-> asg]
+                    inter == ReplaceJT(st.H[name], Without(Fwd(st.H[name]), SeqSet(headers)))
+                IN PerTarget([st EXCEPT !.H = Put([@ EXCEPT ![name] = inter], nb[1], blk), !.ng = nb[2], !.new = @ \cup {nb[1]},
+                                        !.njt = [@ EXCEPT ![IndexOf(@, t)] = nb[1]]], name, tg, j + 1)
+             ELSE PerTarget(st, name, tg, j + 1)
+      PerName(st, j) ==
+        IF j > Len(names) THEN st
+        ELSE LET name == names[j] IN
+             IF name \in SeqSet(exiting) \/ name \in beblocks THEN
+                LET tg == Fwd(st.H[name])
+                    st1 == PerTarget([st EXCEPT !.njt = tg], name, tg, 1)
+                IN PerName([st1 EXCEPT !.H = [@ EXCEPT ![name] = ReplaceJT(@, st1.njt)]], j + 1)
+             ELSE PerName(st, j + 1)
+      fin == PerName([H |-> H1, ng |-> bv[2], njt |-> <<>>, new |-> {}], 1)
+      latchBlk == [k |-> "latch", jt |-> <<exitTarget, head>>, be |-> <<head>>, up |-> l, var |-> bv[1], tab |-> beTab]
+      H2 == Put(fin.H, latch, latchBlk)
+      H3 == IF needs THEN Put(H2, nbx[1], [k |-> "exitbranch", jt |-> exits, be |-> <<>>, up |-> l, var |-> xv[1], tab |-> exitTab]) ELSE H2
+  IN [H |-> H3, ng |-> fin.ng, loop |-> loop1 \cup fin.new \cup {latch}, fail |-> FALSE]
+
+(***************************************************************************)
+(* restructure_branch (one call = one level)                               *)
+(***************************************************************************)
+BranchBeginEnd(H, l) ==
+  LET vo == ViewOrder(H, l)
+      A == Adj(H, l)
+      D == DomFun(A)
+      PD == DomFun(RevAdj(A))
+      ok(b) == /\ Len(Fwd(H[b])) > 1
+               /\ LET e == IDomFrom(PD, b) IN e # "?" /\ IDomFrom(D, e) = b
+      J == {j \in 1..Len(vo) : ok(vo[j])}
+  IN IF J = {} THEN <<>> ELSE LET b == vo[Min(J)] IN <<b, IDomFrom(PD, b)>>
+RECURSIVE ChainTo(_, _, _, _, _)
+ChainTo(H, cur, begin, acc, fuel) ==
+  IF cur = begin \/ fuel = 0 \/ cur \notin DOMAIN H \/ Len(Fwd(H[cur])) # 1 THEN acc \cup {cur}
+  ELSE ChainTo(H, Fwd(H[cur])[1], begin, acc \cup {cur}, fuel - 1)
+HeadBlocks(H, l, begin) == ChainTo(H, HeadOf(H, l), begin, {}, Cardinality(DOMAIN H))
+BranchRegions(H, l, begin, end) ==
+  LET jts == Fwd(H[begin])
+      D == DomFun(Adj(H, l)) IN
+  [j \in 1..Len(jts) |->
+     IF \E t \in SeqSet(jts) : t # jts[j] /\ Reachable(H, l, t, jts[j]) THEN <<>>
+     ELSE <<jts[j], {k \in DOMAIN D : jts[j] \in D[k] /\ end \notin D[k]}>>]
+TailBlocks(H, l, begin, hb, brs) ==
+  ((Level(H, l) \ hb) \ (UNION {IF brs[j] = <<>> THEN {} ELSE {brs[j][1]} \cup brs[j][2] : j \in 1..Len(brs)})) \ {begin}
+BranchPass(H0, ng0, l, rank) ==
+  LET be == BranchBeginEnd(H0, l) IN
+  IF be = <<>> THEN [H |-> H0, ng |-> ng0, fail |-> FALSE]
+  ELSE
+  LET begin == be[1]
+      hb0 == HeadBlocks(H0, l, begin)
+      br0 == BranchRegions(H0, l, begin, be[2])
+      tb0 == TailBlocks(H0, l, begin, hb0, br0)
+      he0 == HeadersEntries(H0, l, tb0, rank)
+      uni == Len(he0[1]) > 1
+      nbh == NewBlock(ng0, "synth_head")
+      ctl == InsertCtl(H0, nbh[2], l, nbh[1], he0[2], he0[1], rank)
+      H1 == IF uni THEN ctl.H ELSE H0
+      ng1 == IF uni THEN ctl.ng ELSE ng0
+      end == IF uni THEN nbh[1] ELSE be[2]
+      hb1 == HeadBlocks(H1, l, begin)
+      br1 == BranchRegions(H1, l, begin, end)
+      tb1 == TailBlocks(H1, l, begin, hb1, br1)
+      RECURSIVE Close(_, _)
+      Close(st, j) ==
+        IF j > Len(br1) \/ st.fail THEN st
+        ELSE LET th == HeadersEntries(st.H, l, tb1, rank)[1] IN
+             IF br1[j] = <<>> THEN
+                LET nb == NewBlock(st.ng, "synth_fill")
+                IN Close([H |-> InsertBlock(st.H, l, nb[1], <<begin>>, th, "fill"), ng |-> nb[2], fail |-> FALSE], j + 1)
+             ELSE IF br1[j][2] = {} THEN Close(st, j + 1)
+             ELSE LET r == JoinTailsExits(st.H, st.ng, l, ExitingExits(st.H, br1[j][2], rank)[1], th)
+                  IN Close([H |-> r.H, ng |-> r.ng, fail |-> r.fail], j + 1)
+      s2 == Close([H |-> H1, ng |-> ng1, fail |-> FALSE], 1)
+      hb2 == HeadBlocks(s2.H, l, begin)
+      br2 == BranchRegions(s2.H, l, begin, end)
+      tb2 == TailBlocks(s2.H, l, begin, hb2, br2)
+      x1 == Extract(s2.H, s2.ng, l, hb2, "head", rank)
+      RECURSIVE Arms(_, _)
+      Arms(st, j) ==
+        IF j > Len(br2) \/ ~st.ok THEN st
+        ELSE IF br2[j] = <<>> \/ br2[j][2] = {} THEN Arms(st, j + 1)
+        ELSE Arms(Extract(st.H, st.ng, l, br2[j][2], "branch", rank), j + 1)
+      s3 == Arms(x1, 1)
+      x2 == IF s3.ok THEN Extract(s3.H, s3.ng, l, tb2, "tail", rank) ELSE s3
+  IN [H |-> x2.H, ng |-> x2.ng, fail |-> s2.fail \/ ~x2.ok \/ HasFail(x2.H)]
 =============================================================================
